@@ -5,6 +5,7 @@ CONSTANTS
   FullNode = FALSE
   Cap = 2
   Weaken = "noExistingGuard"
+  GapFix = FALSE
   Direct = FALSE
   Timeouts = FALSE
 PROPERTY NoRerun
